@@ -110,8 +110,9 @@ RULE = ("cases are transitions/behaviours of Gtirb.tla over the file-format univ
 def plan_c01(ctx):
     reload_stages(ctx)
     if not os.environ.get("VERIF_WARM") and not os.environ.get("VERIF_CHILD"):
-        from . import p_auxlife
+        from . import p_auxlife, p_aux
         p_auxlife.values_stage(ctx)
+        p_aux.run(ctx)      # its "python-reloads-file" leg: every (type, value) input as a table, saved, loaded, read back
     other_backend(ctx)
     ctx.exhaustive = False
     ctx.assumptions += ["self-contained IRs only (Reload is enabled by SelfContained /\\ Closed)",
@@ -310,7 +311,8 @@ def plan_c18(ctx):
     reload_stages(ctx, deq=True, sim=False)
     # after save+load, every single-field perturbation of the live IR against the frozen twin
     extra = {"EmitKeys": configs.proto_base(universe.SCHEMA)["EmitKeys"] | {"deq", "deqn", "shadowed"}}
-    c = consts_for(DEQ_FAMS, SweepOps=DEQ_OPS, SweepMode=True, **extra)
+    sd = dict(configs.proto_base(universe.SCHEMA)["ScalDom"], kindflip={"F", "T"})   # (a block replaced by one of the other class)
+    c = consts_for(DEQ_FAMS, SweepOps=DEQ_OPS, SweepMode=True, ScalDom=sd, **extra)
     r = run_tlc_config("Proto_deq", emit=True, consts=c, action_constraints=["SweepAfterReload"])
     stages.stage_graph(ctx, "Proto_deq", consts=c, result=r)
     # ... and a second step (which may revert the first): equal again iff the content is the same again
